@@ -15,8 +15,8 @@ ID = "C17"
 LEVEL = "exploration"
 RULE = (
     "family 'fixed': one case = (changepoint subset returned by a user-defined detector, series over (-2,0,2), statistic, "
-    "bounds); every changepoint subset x every series for n <= 5 (quick) / 6 (thorough) x {mean, median, user max, user "
-    "range} x 5 bound pairs. family 'real': PELT / MovingWindow / SeededBinarySegmentation on every (0,4) series n <= 8/9 "
+    "bounds); every changepoint subset x every series for n <= 5 (quick) / 6 (thorough) x {mean, median, np.std, np.var, user max, user "
+    "range, positional first-last} x 5 bound pairs. family 'real': PELT / MovingWindow / SeededBinarySegmentation on every (0,4) series n <= 8/9 "
     "and on 2 index kinds. Non-trivial = at least one segment is flagged and at least one is not, or two adjacent "
     "segments are flagged."
 )
@@ -34,7 +34,11 @@ def umax(x):
     return float(np.max(x))
 
 
-STATS = {"mean": np.mean, "median": np.median, "max": umax, "range": urange}
+def ufirst(x):
+    return float(x[0]) - float(x[len(x) - 1])  # positional access: needs the documented plain array
+
+
+STATS = {"mean": np.mean, "median": np.median, "max": umax, "range": urange, "std": np.std, "var": np.var, "first-last": ufirst}
 BOUNDS = ((-1.0, 1.0), (0.0, 0.0), (-3.0, 3.0), (-1.0, -1.0), (0.5, 1.5))
 
 
@@ -120,7 +124,7 @@ def cases(tier, seed):
                 for xs in itertools.product((-2, 0, 2), repeat=n):
                     for stat in STATS:
                         for lo, hi in BOUNDS:
-                            if n == top and stat in ("range",) and (lo, hi) not in ((0.0, 0.0), (0.5, 1.5)):
+                            if n == top and stat in ("range", "var", "first-last", "max") and (lo, hi) not in ((0.0, 0.0), (0.5, 1.5)):
                                 continue
                             yield {"fam": "fixed", "cpts": list(cps), "x": list(xs), "stat": stat, "lo": lo, "hi": hi}
     # non-default index for the user detector
